@@ -2,15 +2,23 @@
 ID = 'C15'
 LEVEL = 'model_checking'
 TECHNIQUE = 'bounded model checking of the compiled code (Kani/CBMC, SAT): Anchor-generated try_accounts + handlers and Pinocchio handler prefixes over symbolic keys, signer flags and account bytes'
-FUNCTIONS = []
-BOUNDS = ['keys, signer flags and relevant account fields fully symbolic; account data sizes fixed to the real LEN of each account type']
+FUNCTIONS = [
+    'Anchor-generated <Accounts>::try_accounts + instructions::*::handler of the instructions in the coverage table (k/src/c04.rs, k/src/c15.rs)',
+    'pinocchio::instructions::{increase_liquidity, decrease_liquidity, increase_liquidity_v2, decrease_liquidity_v2, increase_liquidity_by_token_amounts_v2, reposition_liquidity_v2}::handler (prefix up to Clock::get; tick-array loading up to pino_calculate_modify_liquidity)',
+    'pinocchio AccountIterator::*, load_account(_mut), load_token_program_account, load_tick_array(_mut), TickArraysMut::load, verify_address, verify_constraint',
+    'pino_verify_position_authority, util::verify_position_authority(_interface), util::validate_owner',
+    'Engine M handler mode: instructions::{collect_fees, collect_reward, two_hop_swap}(::v2)::handler, pinocchio liquidity handlers (call order and arguments)',
+]
+BOUNDS = ['unwind 34-40; Pinocchio v2/reposition instruction data: every argument byte symbolic, enum/option tag bytes fixed to 0 (method variant 0, remaining_accounts_info = None); handler-level tick arrays are 148-byte accounts behind a recording loader model, the real loader is decided separately on one 10 004-byte symbolic account',
+          'keys, signer flags and relevant account fields fully symbolic; account data sizes fixed to the real LEN of each account type']
 ASSUMPTIONS = [
     'reward_index < 3 (index >= 3 panics in the generated code); PDA seeds hashed by an ideal-hash memo only for <= 3 seeds of <= 32 bytes (asserted); CPI helpers record their arguments; Clock::get arbitrary; Rent::get fails (prefix)',
     'error conversions replaced by code-preserving stubs; message formatting stubbed',
     'sysvar syscalls (Clock/Rent) stubbed: prefix harnesses stop at the first sysvar call',
     'PDA derivation (sha256 + curve check) is not executed symbolically: structs with seeds= are checked up to the PDA comparison with an ideal-hash stub or excluded (listed in OUTSIDE)',
 ]
-OUTSIDE = ['lock_position try_accounts (init with System CPIs: spurious model failures / out of memory) — its handler is in C18; v1 collect handlers struct+handler in one harness (out of memory): struct by Kani, handler by Engine M handler mode', 'tick-array / oracle content checks of swap after Clock::get (tick-array back-reference: C10 builder harness)','account bytes unchanged on failure (runtime guarantee, not program code)',
+OUTSIDE = ['reposition_liquidity_v2 second range (existing range processed, then the new range): timed out at 900 s; same call site as the decided first range', 'non-None remaining_accounts_info in the Pinocchio handlers; owner-account mints (checked by the SPL token programs); CPIs after the cut',
+           'lock_position try_accounts (init with System CPIs: spurious model failures / out of memory) — its handler is in C18; v1 collect handlers struct+handler in one harness (out of memory): struct by Kani, handler by Engine M handler mode', 'tick-array / oracle content checks of swap after Clock::get (the Anchor SparseSwapTickSequenceBuilder::try_build did not finish under CBMC: NOT decided; the Pinocchio loaders are)','account bytes unchanged on failure (runtime guarantee, not program code)',
            'init-constraint instructions are checked up to the first System-program CPI']
 
 
